@@ -16,6 +16,21 @@ CLAIMS = {
  "C05": dict(design="DESIGN.md section 4 C05",
    text="Proof on the real code of the sequential ingredients: the carrier handler calls turbotunnelMode only after the token compared equal (token gate) and always closes the carrier; the read-loop closure attributes every upstream packet to the ClientID this carrier presented and the write-loop closure takes downstream packets only from that ClientID's queue; QueueIncoming/WriteTo enqueue private copies tagged with the caller's address; ClientMap.SendQueue returns the queue of exactly the address asked for (index bijection invariant, queues pairwise distinct: two ClientIDs never share a queue, one ClientID keeps its queue while retained); the textual form of a ClientID covers all eight bytes (kcp-go keys sessions by it).",
    note="Exactly-one accepted connection per session and stream continuity live inside kcp-go/smux (out of reach). container/heap contracts assumed as for C17. Monitor discipline for the client map."),
+ "C02": dict(design="DESIGN.md section 4 C02",
+   text="Proof on the real code of the routing contracts: RequestOffer registers the poll with the caller's id/NAT/load and a fresh private channel; ClientOffers calls matchSnowflake only after GetBridgeInfo succeeded for the decoded fingerprint (a client naming an unknown bridge is never matched), sends the offer only on the matched entry's private offer channel, returns as answer only the value received on that entry's answer channel, and unregisters the id before the matching lock is released; ProxyAnswers sends only on the answer channel of the entry registered under the decoded session id; ProxyPolls hands out the WebSocket address of the bridge-list entry for the offer's fingerprint; LoadBridgeInfo replaces (never merges) the list; matchSnowflake/AddSnowflake/the per-poll goroutine keep the matching-state monitor invariant (an entry is filed in at most one pool, positions unique), so an entry is popped at most once.",
+   note="Byte-for-byte identity of what travels over the channels rests on Go channel semantics (assumed). container/heap contracts assumed (prelude/heap_snowflake.spec, conditional on the proved heap.Interface laws). Interleavings only through the monitor invariant. messages.* decoders are unconstrained here (their own contracts: C12)."),
+ "C03": dict(design="DESIGN.md section 4 C03",
+   text="Proof on the real code: heap.Interface laws of SnowflakeHeap (Less = fewer clients, Swap/Push/Pop keep the index fields); the monitor invariant on snowflakeLock (the heap `snowflakes` holds only proxies that reported unrestricted NAT, `restrictedSnowflakes` holds none; every filed entry is in exactly one of the two pools at a unique position) is preserved by AddSnowflake, matchSnowflake and the poll-timeout goroutine; matchSnowflake: a restricted/unknown client only gets an unrestricted proxy, an unrestricted client is served from the other pool, refusal iff the eligible pool is empty, and the proxy handed out has the fewest clients of that pool; the timeout branch removes an entry from the pool it was filed in, iff it is still queued.",
+   note="container/heap.{Push,Pop,Remove} on SnowflakeHeap are ASSUMED contracts stating the library's priority-queue semantics through a ghost membership field (prelude/heap_snowflake.spec), conditional on the proved laws. NAT defaulting in the decoders is part of C12."),
+ "C04": dict(design="DESIGN.md section 4 C04",
+   text="Proof of the sequential sufficient conditions: the per-poll goroutine answers its poll exactly once (send or close) on every path — this obligation failed on the pinned tree (poll timeout racing with a client match) and is proved after the fix; every blocking channel operation of RequestOffer / ClientOffers / the per-poll goroutine has a timer case or a named counterpart (B1); ClientOffers unregisters the matched id before releasing the matching lock; the timeout branch unregisters iff the entry is still queued. One open known finding: ProxyAnswers' send on the unbuffered answer channel has no abandon case (an answer posted just after the client's timeout blocks the handler forever).",
+   note="The numeric bound (10 s + slack), fairness and scheduling are out of reach; timers are 'a case that can always fire'; that a paired goroutine is running is assumed (B1 c)."),
+ "C06": dict(design="DESIGN.md section 4 C06",
+   text="Proof on the real code (SMT strings): NewNameMatcher/IsMember/IsSupersetOf equal the spec functions written from the documented pattern semantics; lemma superset_sound (for ALL patterns and hostnames: judged superset and member of the smaller implies member of the larger); the broker's CheckProxyRelayPattern is that judgement on the announced (or presumed) pattern, ProxyPolls registers a proxy only if it returned true and otherwise answers the explicit 'incorrect relay pattern' rejection; the proxy's runSession lets a broker-supplied relay URL reach the peer connection only if its hostname is in the proxy's own pattern and the scheme is wss unless non-TLS was allowed, and the data channel handler dials exactly that URL (or the operator's own when empty).",
+   note="net/url.Parse / Hostname are unconstrained functions of the URL text; strings.HasSuffix/HasPrefix/TrimSuffix/TrimPrefix by their SMT-LIB definitions (prelude/strings.spec)."),
+ "C16": dict(design="DESIGN.md section 4 C16",
+   text="Proof on the real code of the slot typestate: runSession releases its slot exactly once on every return path (never one it does not hold) or hands it over exactly when the data-channel case of its select fired; datachannelHandler releases its slot exactly once on every path; the OnDataChannel callback is safe under repeated invocation by the remote client and starts at most one handler per peer connection (failed on the pinned tree, fixed); get/ret perform one counter step and one channel operation iff capacity != 0; newTokens sizes the channel; the load reported in every poll is computed afresh and is a multiple of 8 not above the slots in use.",
+   note="'Never more than N at once' additionally needs Go's buffered-channel semantics (assumed). The timer-vs-open window of the hand-over is not decided (DESIGN section 5 item 14). sync.Once semantics assumed."),
 }
 NA = {
  "C01": "end-to-end delivery across proxy churn is a property of the composition of kcp-go, smux, pion and three processes under fault schedules; no contract on a function in /repo states or implies it (DESIGN.md section 6)",
